@@ -9,7 +9,7 @@ from .common import PropBase
 
 
 SEQS = [b"\x1b[15~", b"\x1b[1;5A", b"\x1b[5~", b"\x1bOP", b"\x9b3;2~", b"\x1b[M !!", b"\x1b[24;6~", b"a", b"\r\n", b"\x1b\x1b[Z",
-        b"\x1b[?25h", b"\x8fQ", b"\x1b[2;3;4m"]
+        b"\x1b[?25h", b"\x8fQ", b"\x1b[2;3;4m", b"\x1b[99999999999999999999A", b"\x1b[5A", b"\x1b[4294967307~", b"\x1b[1;99999999999999999999B"]
 
 
 def input_script(r):
